@@ -409,3 +409,22 @@ Fixpoint run_history (Ht : list (bytes * bytes)) (ids : list (bytes * N)) (cur :
   end.
 
 Definition history_case_ok (c : hcase) : bool := run_history (hc_H c) (hc_ids c) (hc_init c) (hc_steps c).
+
+(* ------------------------------------------------------------------ *)
+(* Round trips: an advertisement as encoded and as decoded must have the same signed
+   payload bytes (the peer-ID strings enter them as written, whichever spelling) *)
+
+Definition signed_payloads {pubkey sigt} (a : ad pubkey sigt) : list bytes :=
+  match a_entries a with
+  | None => []
+  | Some ent =>
+    ad_raw a ent ::
+    match a_ext a with
+    | None => []
+    | Some x => map (fun p => ep_raw a x p ent) (x_providers x)
+    end
+  end.
+
+Definition rt_case_ok (c : sad * sad) : bool :=
+  let '(before, after) := c in
+  list_eqb bytes_eqb (signed_payloads before) (signed_payloads after).
